@@ -37,6 +37,16 @@ CHECKS = {
              "for byte (Base/Json.print_json vs json.dump).",
         note="json text parsing/printing is CPython's; print_json is a model of the writer validated on every case.",
         design="DESIGN.md section 6 C03"),
+    "C04": dict(
+        text="Executable Coq model of the treeinfo writer (all sections incl. nested variants, paths, images, stage2, media, "
+             "checksums, [general]) on a model of SortedConfigParser, of the >= 1.0 reader, and of discinfo. Proved: "
+             "C04_typed_checksum_roundtrip. The tree-level statement is decided by the docs_treeinfo correspondence: model "
+             "writer vs real writer byte for byte; the section table the real parser produces from the written text is loaded by "
+             "the model reader and compared with the re-read object; implementation-side oracle compares every fact and the "
+             "second write; discinfo likewise.",
+        note="Partial: deser_ti (ser_ti x) = Ok (norm x) is not yet a Coq theorem. ConfigParser text parsing and float repr are "
+             "CPython's; values containing '%' (interpolation) are outside the generated domain (O2).",
+        design="DESIGN.md section 6 C04"),
     "C08": dict(
         text="Coq theorems about the JSON writer model: C08_json_same_content (two documents whose mappings have the same "
              "content at every depth print to the same bytes), C08_reordering_is_same_content (any permutation of a mapping's "
@@ -117,6 +127,16 @@ CHECKS = {
         note="The decoder is a hand model of what the pattern denotes; its tie to the regex is the differential run (ids, junk "
              "strings with newlines and digit runs). Known finding K1 (8-digit respins).",
         design="DESIGN.md section 6 C15"),
+    "C17": dict(
+        text="Coq theorem C17_general_mirror: for every tree and every main-variant choice, whenever the writer produces [general], "
+             "its family/version/name/arch/platforms/timestamp equal the [release] name and version, '<name> <version>', the "
+             "[tree] arch, the [tree] platforms (incl. the arch) and the integer timestamp; 'variant' is the requested main variant "
+             "or the alphabetically first top-level one; packagedir/repository are that variant's packages/repository with the "
+             "source fallbacks of a src tree. Tie: the model writer is compared byte for byte with the real one over sampled "
+             "trees x main-variant choices; an independent INI reader checks the clauses on the real output; the [general] "
+             "section alone is fed to the pre-productmd reader.",
+        note="The 'pre-productmd reader sees the same tree' clause uses productmd's own 0.0 reader as the stand-in (oracle, not theorem).",
+        design="DESIGN.md section 6 C17"),
     "C18": dict(
         text="Coq effect model of dump(path): C18_dump_atomic (a failed dump leaves every file, the destination included, as it "
              "was; none is created), C18_dump_ok_writes, and C18_open_first_refuted (the validate/open/serialise order the code "
